@@ -130,7 +130,7 @@ pub fn property() -> Property {
         subchecks: vec![SubCheck {
             name: "strains-reaggregate",
             rule: "G-MAP (all modes + converts, <=50 objects, long breaks and negative first times) x G-DIFF incl. passed_objects. Oracle: all peaks finite and >= 0; all vectors of a Strains value have equal length; section_len 400 (750 catch); harness re-implementation of the documented aggregation (drop non-positive, sort descending, sum peak*w^i): catch stars = sqrt(sum, w=0.94)*4.59, mania stars = sum(w=0.9)*0.018, osu flashlight = sqrt(plain sum)*0.0675 then ^0.8 (TD), *0.7 (RX) / *0.4 (AP), relative tolerance 1e-12 against calculate() with the same settings. Non-trivial: >=2 non-zero peaks with >=1 zero section between them.",
-            quick: 12_000,
+            quick: 60_000,
             thorough: 200_000,
             tape_len: 1500,
             f: case,
